@@ -147,6 +147,48 @@ func c05Run(c *fw.Ctx) {
 			}
 		})
 	}
+	// arity ladder: list commands with N elements, N around the powers of two up to 4097
+	// (anything the dispatcher sizes, clamps or pre-allocates per request shows here)
+	arities := []int{15, 16, 17, 255, 256, 257, 1023, 1024, 1025, 1500, 4097}
+	if c.Thorough() {
+		arities = append(arities, 65535, 65536, 65537)
+	}
+	for _, s := range grammar.Specs {
+		if s.Framework || s.Composite || s.Build == nil || (s.Tail != grammar.TStrs && s.Tail != grammar.TPairs && s.Tail != grammar.TScoreMembers) {
+			continue
+		}
+		pos := make([]string, len(s.Pos))
+		for i := range pos {
+			pos[i] = "k"
+		}
+		for _, n := range arities {
+			if !c.Mine() {
+				continue
+			}
+			var tail []string
+			for i := 0; i < n; i++ {
+				switch s.Tail {
+				case grammar.TStrs:
+					tail = append(tail, fmt.Sprintf("e%d", i))
+				case grammar.TPairs:
+					tail = append(tail, fmt.Sprintf("f%d", i), fmt.Sprintf("v%d", i))
+				case grammar.TScoreMembers:
+					tail = append(tail, fmt.Sprint(i), fmt.Sprintf("m%d", i))
+				}
+			}
+			calls := s.Build(pos, tail)
+			cs := c05Case{Kind: "cmd", DB: 0, Args: append(append([]string{s.Name}, pos...), tail...), Calls: calls, CallKeys: []string{fmt.Sprintf("%d calls predicted for %d elements", len(calls), n)}, Multiset: s.Multiset, Shape: fmt.Sprintf("arity=%d", n)}
+			c.Eval()
+			c.Nontrivial()
+			if clause, detail := c05Check(cs); clause != "" {
+				if len(detail) > 600 {
+					detail = detail[:600] + "..."
+				}
+				cs.Args = append(append([]string{s.Name}, pos...), "<ladder>", fmt.Sprint(n))
+				c.Violation("C05|"+s.Name+"|arity-ladder|"+clause, detail+fmt.Sprintf(" request=%s with %d list elements", s.Name, n), cs)
+			}
+		}
+	}
 	c05History(c)
 	// composites that delegate to one primitive: the primitive must be called with the
 	// client's key/field and, for ZREVRANGEBYSCORE, with the client's bounds and
@@ -423,6 +465,9 @@ func c05Replay(raw json.RawMessage) (string, bool, error) {
 	if cs.Kind == "deleg" {
 		return "", false, fmt.Errorf("delegation cases are re-derived by the check itself; run ./check C05 quick")
 	}
+	if len(cs.Args) >= 2 && cs.Args[len(cs.Args)-2] == "<ladder>" {
+		return "", false, fmt.Errorf("arity-ladder cases are re-derived by the check itself; run ./check C05 quick")
+	}
 	if cs.Kind == "cmd" || cs.Kind == "auth" || cs.Kind == "history" {
 		// re-derive the prediction from the grammar (the stored keys are informative only)
 		cs.Calls = nil
@@ -471,7 +516,7 @@ func init() {
 	fw.Register(&fw.Prop{
 		ID:    "C05",
 		Level: "exploration",
-		Rule:  "for every command that maps onto handler operations: all well-formed argument vectors from the independent grammar (positional values over small per-kind pools incl. binary/CRLF strings and boundary integers/floats, list tails of 1..3 elements with duplicates, pair lists with repeated keys, every legal option subset in every order for SET/ZADD/ZRANGE/ZRANGEBYSCORE/EXPIRE/SCAN/LPOP) x 3 letter-case variants x SELECT {0,3}; plus the primitive call of every delegating composite (key/field passed through; ZREVRANGEBYSCORE bounds and exclusive markers on the right side), history independence (every valid catalogue request of every command, run first on another connection with a handler reporting everything present and one reporting everything absent, then up to four representative requests per command: the calls recorded for the later request are those predicted for it alone), AUTH forms, an application-registered executor and unknown names at edit distance 1. Each case is a distinct request; all are non-trivial (each compares the recorded handler calls with the predicted ones).",
+		Rule:  "for every command that maps onto handler operations: all well-formed argument vectors from the independent grammar (positional values over small per-kind pools incl. binary/CRLF strings and boundary integers/floats, list tails of 1..3 elements with duplicates, pair lists with repeated keys, every legal option subset in every order for SET/ZADD/ZRANGE/ZRANGEBYSCORE/EXPIRE/SCAN/LPOP) x 3 letter-case variants x SELECT {0,3}; plus an arity ladder (every list / pair-list / score-member command with 15..4097 elements around the powers of two; thorough to 65537); plus the primitive call of every delegating composite (key/field passed through; ZREVRANGEBYSCORE bounds and exclusive markers on the right side), history independence (every valid catalogue request of every command, run first on another connection with a handler reporting everything present and one reporting everything absent, then up to four representative requests per command: the calls recorded for the later request are those predicted for it alone), AUTH forms, an application-registered executor and unknown names at edit distance 1. Each case is a distinct request; all are non-trivial (each compares the recorded handler calls with the predicted ones).",
 		Assumptions: []string{
 			"the grammar in /verif/grammar (written from the Redis reference and the handler interface) is the reference for the expected call",
 			"SCAN patterns are compared behaviourally on 14 probe keys; ZRANGE BYSCORE REV, SCAN TYPE, BYLEX are not generated (the interface cannot express them unambiguously)",
